@@ -419,6 +419,7 @@ type sAdv struct {
 	cpeStr string
 	wfn    cpe.WFN
 	rhel   bool
+	bad    bool // the matcher's Vulnerable returns an error for it
 	sup    []bool
 }
 
@@ -755,6 +756,7 @@ type scanScenario struct {
 	nrepos     int
 	repoSet    []*sRepo
 	badVersion bool
+	badAdv     bool            // holds an advisory the ecosystem's matcher cannot evaluate
 	parts      []*scanScenario // a report put together from scenarios of several ecosystems
 }
 
@@ -928,6 +930,9 @@ func (sc *scanScenario) expected(pid string, a *sAdv) (int, bool) {
 	if sc.badVersion && pid == sc.recs[0].pkg.ID {
 		return 0, false // a version outside the scheme: compared with the model only
 	}
+	if a.bad {
+		return 0, false // cannot be evaluated: the call fails, or goes on without it
+	}
 	if sc.rhelIU && eco.id == "rhel" && a.v.FixedInVersion == "" {
 		return 0, true // configured to ignore advisories without a fix
 	}
@@ -1000,6 +1005,8 @@ type scanOpt struct {
 	base     int
 	tag      string
 	forceSet string
+	badAdv   bool // one of several advisories of the package is one the matcher's Vulnerable refuses
+	badPos   int  // its position in the store's answer (modulo the number of advisories)
 }
 
 func (e *env) genScan(eco scanEco, opt scanOpt) *scanScenario {
@@ -1022,6 +1029,9 @@ func (e *env) genScan(eco scanEco, opt scanOpt) *scanScenario {
 	nchain := e.nvChain(4)
 	release := rnd.Pick("8", "9", "12", "3.18", "22.04", "2")
 	npk := 1 + rnd.Intn(2)
+	if opt.badAdv {
+		npk = 1
+	}
 	ir := &claircore.IndexReport{Packages: map[string]*claircore.Package{}, Distributions: map[string]*claircore.Distribution{},
 		Repositories: map[string]*claircore.Repository{}, Environments: map[string][]*claircore.Environment{}}
 	name := scanPkgNames[rnd.Intn(len(scanPkgNames))] + opt.tag
@@ -1110,6 +1120,9 @@ func (e *env) genScan(eco scanEco, opt scanOpt) *scanScenario {
 	}
 	// advisories: about one of the records' release, with one field possibly off
 	nadv := 1 + rnd.Intn(3)
+	if opt.badAdv {
+		nadv = 3 + rnd.Intn(2)
+	}
 	for ai := 0; ai < nadv; ai++ {
 		base := sc.recs[rnd.Intn(len(sc.recs))]
 		_, va, op := e.scanArch()
@@ -1142,7 +1155,7 @@ func (e *env) genScan(eco scanEco, opt scanOpt) *scanScenario {
 				}
 			}
 		}
-		if rnd.Chance(1, 4) { // one field differs
+		if !opt.badAdv && rnd.Chance(1, 4) { // one field differs
 			f := advFields[rnd.Intn(len(advFields))]
 			if eco.id == "rhel" && f == "rname" {
 				f = "rkey"
@@ -1231,6 +1244,21 @@ func (e *env) genScan(eco scanEco, opt scanOpt) *scanScenario {
 			}
 		}
 		sc.advs = append(sc.advs, a)
+	}
+	if opt.badAdv {
+		// one advisory the matcher cannot evaluate, among well-formed ones of the same package
+		a := sc.advs[opt.badPos%len(sc.advs)]
+		switch eco.family {
+		case "deb":
+			a.v.FixedInVersion = rnd.Pick("v1.1.1l-1", "1.0_1", "abc", "1:", "-1")
+		case "osv":
+			a.v.FixedInVersion = rnd.Pick("fixed=%zz", "introduced=1.0&fixed=%4", "a;b=1")
+			if eco.id != "java" {
+				a.v.FixedInVersion = rnd.Pick(a.v.FixedInVersion, "fixed=abc", "introduced=abc&fixed=9999", "lastAffected=x.y")
+			}
+		}
+		a.bad, a.shape = true, "unparsable"
+		sc.badAdv = true
 	}
 	// calls that would not return (finding deb-compare-hang) are kept out of the scan lines
 	if eco.family == "deb" {
@@ -1431,11 +1459,27 @@ func (e *env) scanOps(rounds int) {
 	// the registered set itself (matchers/defaults): one protocol line
 	r.Op("defaults", matcherNames(d0), true)
 	for c := 0; c < rounds && !r.Stop(); c++ {
+		type scanJob struct {
+			eco scanEco
+			opt scanOpt
+		}
+		var jobs []scanJob
 		for _, eco := range scanEcos {
+			jobs = append(jobs, scanJob{eco, scanOpt{}})
+			if eco.family == "deb" || eco.family == "osv" {
+				// one unparsable advisory among several of one package, in every position of the store's answer
+				jobs = append(jobs, scanJob{eco, scanOpt{badAdv: true, badPos: c}})
+			}
+		}
+		for _, job := range jobs {
+			eco := job.eco
 			if r.Stop() {
 				return
 			}
-			sc := e.genScan(eco, scanOpt{})
+			sc := e.genScan(eco, job.opt)
+			if job.opt.badAdv {
+				r.Count("scan:unparsable-advisory:" + eco.id)
+			}
 			if sc == nil {
 				r.Count("scan:skipped-hang-shape")
 				continue
@@ -1473,6 +1517,9 @@ func (e *env) scanOps(rounds int) {
 			got, counts := runScan(ms, sc)
 			r.Op(sc.line(), got, true)
 			r.Count("scan:" + eco.id + ":" + sc.set + ":" + got[:1])
+			if job.opt.badAdv {
+				r.Count("scan:unparsable-advisory:" + eco.id + ":" + got[:1])
+			}
 			parts := sc.parts
 			if parts == nil {
 				parts = []*scanScenario{sc}
@@ -1487,7 +1534,7 @@ func (e *env) scanOps(rounds int) {
 				// by construction only a package version outside its scheme makes a matcher fail
 				bad := false
 				for _, part := range parts {
-					bad = bad || part.badVersion
+					bad = bad || part.badVersion || part.badAdv
 				}
 				if !bad {
 					r.Fail("", "scan: matcher.Match returned an error although every version parses in its scheme (a failing matcher loses all its results): "+sc.describe())
@@ -1518,8 +1565,12 @@ func (e *env) scanOps(rounds int) {
 							r.Count("scan:unlisted:" + part.whyUnlisted(pid, a))
 						}
 						if n != want {
-							r.Fail("", fmt.Sprintf("scan/%s: advisory #%s is listed %d times for package #%s, by construction expected %d (once per record of the package in a release / repository the advisory is about, whose version is affected): %s",
-								part.eco.id, a.id, n, pid, want, sc.describe()))
+							note := ""
+							if part.badAdv {
+								note = "; another advisory of the package cannot be evaluated by the matcher — the call must then fail, or still list every advisory that can (never a silent subset)"
+							}
+							r.Fail("", fmt.Sprintf("scan/%s: matcher.Match returned no error and advisory #%s is listed %d times for package #%s, by construction expected %d (once per record of the package in a release / repository the advisory is about, whose version is affected%s): %s",
+								part.eco.id, a.id, n, pid, want, note, sc.describe()))
 						}
 					}
 				}
